@@ -225,13 +225,19 @@ func init() {
 				}
 				reqs = append(reqs, rq)
 			}
+			// several requests: one after the other, all at the same instant, or one second apart (a later one
+			// arrives while an earlier one may still be waiting; valid proxy polls share one session id)
+			overlap := 0
+			if x.Cfg["overlap"] == "1" && n > 1 {
+				overlap = 1 + vs.Choose("overlap", 2)
+			}
 			// broker state before the request: empty / a proxy waiting that answers / a silent one
 			cw.state = vs.Choose("state", 3)
 			var ds []string
 			for _, r := range reqs {
 				ds = append(ds, r.String())
 			}
-			x.Outcome(fmt.Sprintf("state=%d %s", cw.state, strings.Join(ds, " ; ")))
+			x.Outcome(fmt.Sprintf("state=%d overlap=%d %s", cw.state, overlap, strings.Join(ds, " ; ")))
 			w := newWorld()
 			cw.w = w
 			// as in production (-allowed-relay-pattern, -default-relay-pattern)
@@ -246,12 +252,22 @@ func init() {
 				p.pattern = &c14Pattern
 				vs.GoRole("proxy0", vs.RoleDaemon, func() { w.runProxy(p) })
 			}
-			vs.GoRole("requests", vs.RoleRequest, func() {
-				vs.Sleep(time.Second)
-				for _, rq := range reqs {
-					cw.do(mux, rq)
+			if overlap == 0 {
+				vs.GoRole("requests", vs.RoleRequest, func() {
+					vs.Sleep(time.Second)
+					for _, rq := range reqs {
+						cw.do(mux, rq)
+					}
+				})
+			} else {
+				for i, rq := range reqs {
+					i, rq := i, rq
+					vs.GoRole(fmt.Sprintf("request%d", i), vs.RoleRequest, func() {
+						vs.Sleep(time.Second + time.Duration(i*(overlap-1))*time.Second)
+						cw.do(mux, rq)
+					})
 				}
-			})
+			}
 			// afterwards the broker must still work: a full happy path
 			vs.Sleep(100 * time.Second)
 			pp := w.addProxy(NATUnrestricted, "standalone", 0, 0, ansPrompt)
